@@ -729,6 +729,55 @@ func Run(out, mode string) {
 			}
 		}
 		if !bamMode {
+			// the whole file through sam.Writer and back through sam.Reader: the text is the header
+			// text followed by one line per record, and reading it gives the header and the records
+			var keep []int
+			for i, a := range as {
+				if a.samok && len(a.Seq) <= 5000 {
+					keep = append(keep, i)
+				}
+			}
+			htext, _ := h.MarshalText()
+			lines := [][]int{}
+			var buf bytes.Buffer
+			m := tr.M{"hdrtext": ints(htext), "sig": "codec/samfile"}
+			m["res"] = safely(func() {
+				sw, e := sam.NewWriter(&buf, h, sam.FlagDecimal)
+				if e != nil {
+					panic(e)
+				}
+				for _, i := range keep {
+					l, _ := recs[i].MarshalSAM(sam.FlagDecimal)
+					lines = append(lines, ints(l))
+					if e := sw.Write(recs[i]); e != nil {
+						panic(e)
+					}
+				}
+				m["out"] = ints(buf.Bytes())
+				sr, e := sam.NewReader(bytes.NewReader(buf.Bytes()))
+				if e != nil {
+					panic(e)
+				}
+				t2, _ := sr.Header().MarshalText()
+				m["hdrback"] = bytes.Equal(t2, htext)
+				same := []bool{}
+				errc := ""
+				for k := 0; k < len(keep)+2; k++ {
+					rec, e := sr.Read()
+					if e != nil {
+						errc = "other: " + e.Error()
+						if e == io.EOF {
+							errc = "EOF"
+						}
+						break
+					}
+					l2, _ := rec.MarshalSAM(sam.FlagDecimal)
+					same = append(same, k < len(lines) && eqJSON(ints(l2), lines[k]))
+				}
+				m["same"], m["err"], m["n"] = same, errc, len(keep)
+			})
+			m["lines"] = lines
+			t.Ev("samfile", m)
 			continue
 		}
 		t.Ev("hdr", tr.M{"equal": hdrEqual, "sig": "codec/bam/header"})
